@@ -28,7 +28,8 @@ let parse_stop fs =
   expect t "mw"; let mw = take_opt t z_of_string in
   expect t "p"; let p = z_of_string (take1 t) in
   expect t "at"; let at = take_list t (fun x -> i2n (int_of_string x)) in
-  { is_quantity = q; is_duration = d; is_windows = ws; is_max_wait = mw; is_penalty = p; is_attrs = at }
+  { is_quantity = q; is_duration = d; is_windows = ws; is_max_wait = mw; is_penalty = p; is_attrs = at;
+    is_target = None; is_early_pen = Z0; is_late_pen = Z0 }
 
 let parse_vehicle fs =
   let t = ref fs in
@@ -47,7 +48,7 @@ let parse_vehicle fs =
   expect t "he"; let he = take1 t = "1" in
   { iv_capacity = cap; iv_start_level = sl; iv_start_time = st; iv_end_time = et; iv_max_duration = md;
     iv_max_stops = ms; iv_max_distance = mx; iv_max_wait = mw; iv_attrs = at; iv_activation = ac;
-    iv_has_start = hs; iv_has_end = he }
+    iv_has_start = hs; iv_has_end = he; iv_min_stops = Z0; iv_min_stops_pen = Z0 }
 
 let parse_unit fs =
   let t = ref fs in
@@ -67,7 +68,8 @@ let parse_opts fs =
         o_dis_windows = bo e; o_dis_max_stops = bo f; o_dis_max_wait_stop = bo g; o_dis_max_wait_vehicle = bo h;
         o_dis_attributes = bo i; o_dis_start_time = bo j; o_dis_durations = bo k;
         o_f_activation = z_of_string fa; o_f_travel = z_of_string ft; o_f_vehicles_duration = z_of_string fv;
-        o_f_unplanned = z_of_string fu; o_dis_dgroups = false }
+        o_f_unplanned = z_of_string fu; o_dis_dgroups = false;
+        o_f_early = Z0; o_f_late = Z0; o_f_min_stops = Z0; o_f_stop_balance = Z0 }
   | _ -> failwith "bad opt line"
 
 let the_gi : ginput option ref = ref None
@@ -98,7 +100,11 @@ let term_names (inp : input) : string list =
   (if pos o.o_f_activation && List.exists (fun v -> v.iv_activation <> Z0) inp.in_vehicles then ["vehicle_activation_penalty"] else []) @
   (if pos o.o_f_travel then ["travel_duration"] else []) @
   (if pos o.o_f_vehicles_duration then ["vehicles_duration"] else []) @
-  (if pos o.o_f_unplanned then ["unplanned_penalty"] else [])
+  (if pos o.o_f_unplanned then ["unplanned_penalty"] else []) @
+  (if pos o.o_f_early && has_early inp then ["early_arrival_penalty"] else []) @
+  (if pos o.o_f_late && has_late inp then ["late_arrival_penalty"] else []) @
+  (if pos o.o_f_min_stops && has_min_stops inp then ["min_stops"] else []) @
+  (if pos o.o_f_stop_balance then ["stop_balance"] else [])
 
 let snapshot id step (inp : input) (s : state) =
   let p = Printf.sprintf "%s %d" id step in
@@ -197,6 +203,7 @@ let run_engine (id, lines) =
   let stops = ref [] and vehs = ref [] and units = ref [] and drows = ref [] and xrows = ref [] in
   let nres = ref 0 and opts = ref None in
   let dgroups = ref [] and dgopt = ref false in
+  let xstops = ref [] and xvehs = ref [] and xopt = ref None in
   let inp = ref None and sols = ref [||] and cur = ref 0 and step = ref 0 in
   let get_inp () = match !inp with Some i -> i | None -> failwith "no build" in
   try
@@ -207,6 +214,9 @@ let run_engine (id, lines) =
         let rec pairs = function a :: b :: t -> (i2n (int_of_string a), b = "1") :: pairs t | _ -> [] in
         initials := !initials @ [(int_of_string v, pairs r)]
     | "nres" :: [k] -> nres := int_of_string k
+    | "xopt" :: [a; b; c; d] -> xopt := Some (z_of_string a, z_of_string b, z_of_string c, z_of_string d)
+    | "xstop" :: [i; t; e; l] -> xstops := (int_of_string i, (z_of_string t, z_of_string e, z_of_string l)) :: !xstops
+    | "xveh" :: [v; m; q] -> xvehs := (int_of_string v, (z_of_string m, z_of_string q)) :: !xvehs
     | "dgopt" :: [x] -> dgopt := (x = "1")
     | "dgroup" :: d :: _ :: ss -> dgroups := !dgroups @ [(List.map (fun x -> i2n (int_of_string x)) ss, z_of_string d)]
     | "user" :: f :: mx :: vl :: tp :: _ ->
@@ -224,9 +234,21 @@ let run_engine (id, lines) =
     | "drow" :: r -> drows := List.map z_of_string r :: !drows
     | "xrow" :: r -> xrows := List.map z_of_string r :: !xrows
     | "build" :: _ ->
-        let i = { in_user = !users; in_stops = List.rev !stops; in_vehicles = List.rev !vehs; in_units = List.rev !units;
+        let stops_x = List.mapi (fun k st -> match List.assoc_opt k !xstops with
+                                    | Some (t, e, l) -> { st with is_target = Some t; is_early_pen = e; is_late_pen = l }
+                                    | None -> st) (List.rev !stops) in
+        let vehs_x = List.mapi (fun k ve -> match List.assoc_opt k !xvehs with
+                                   | Some (m, q) -> { ve with iv_min_stops = m; iv_min_stops_pen = q }
+                                   | None -> ve) (List.rev !vehs) in
+        let i = { in_user = !users; in_stops = stops_x; in_vehicles = vehs_x; in_units = List.rev !units;
                   in_duration = List.rev !drows; in_distance = List.rev !xrows; in_nres = i2n !nres;
-                  in_opts = (match !opts with Some o -> { o with o_dis_dgroups = !dgopt } | None -> failwith "no opt");
+                  in_opts = (match !opts with
+                             | Some o ->
+                                 let o = { o with o_dis_dgroups = !dgopt } in
+                                 (match !xopt with
+                                  | Some (a, b, c, d) -> { o with o_f_early = a; o_f_late = b; o_f_min_stops = c; o_f_stop_balance = d }
+                                  | None -> o)
+                             | None -> failwith "no opt");
                   in_dgroups = !dgroups } in
         inp := Some i;
         let g = { gi_inp = i;
